@@ -31,8 +31,8 @@ NOTE_FORMS = {
     "stamped": [f"o P2 240412 {MZ} moved stamped todo", "  * with a bullet"],
 }
 POSITIONS = ["first", "middle", "last", "only-in-block", "under-h1", "under-h2"]
-MENTIONS = ["none", "earlier-note", "later-note", "earlier-zid-link"]
-OWN_TAGS = ["none", "same-as-inherited", "extends-inherited"]
+MENTIONS = ["none", "earlier-note", "later-note", "earlier-zid-link", "self"]
+OWN_TAGS = ["none", "same-as-inherited", "extends-inherited", "own-keys-end-with-inherited-keys"]
 DESTS = ["missing-no-template", "missing-template", "header-only", "header-blank", "block-nl", "block-no-nl",
          "block-two-blank", "block-then-section", "ends-with-section-header", "mentions-zid",
          "ends-with-section-header-no-nl", "missing-template-ending-in-section", "same-page",
@@ -47,6 +47,12 @@ def build_source(form, pos, mention, own):
     elif own == "extends-inherited":
         # longer tags that merely start with the inherited names
         note[0] += " #inh2 +proj_x"
+    elif own == "own-keys-end-with-inherited-keys":
+        # own properties whose keys merely END with the inherited keys hk, sk, deep, spaced
+        note[0] += " xhk::1 ssk::2 [undeep:: own value] unspaced::3"
+    if mention == "self":
+        # the note mentions its own ZID once more in its body
+        note[0] += f" (this is {MZ} itself)"
     a = "- 240101#S1 neighbour one"
     b = "- 240102#S2 neighbour two"
     if mention == "earlier-note":
@@ -443,7 +449,7 @@ def _cases(ctx):
                 for mention in MENTIONS:
                     dkind = DESTS[k % len(DESTS)]
                     marker = MARKERS[k % 3]
-                    own = OWN_TAGS[k % 3]
+                    own = OWN_TAGS[k % len(OWN_TAGS)]
                     cases.append([form, pos, mention, own, dkind, marker])
                     k += 1
         for dkind in DESTS:
@@ -452,7 +458,7 @@ def _cases(ctx):
                     cases.append([form, "middle", "none", "none", dkind, marker])
         for pos in POSITIONS:
             for dkind in DESTS:
-                cases.append(["multi", pos, "none", OWN_TAGS[1 + (len(cases) % 2)], dkind, None])
+                cases.append(["multi", pos, "none", OWN_TAGS[1 + (len(cases) % (len(OWN_TAGS) - 1))], dkind, None])
     else:
         for form, pos, mention, own, dkind, marker in it.product(NOTE_FORMS, POSITIONS, MENTIONS, OWN_TAGS, DESTS, MARKERS):
             cases.append([form, pos, mention, own, dkind, marker])
